@@ -222,6 +222,15 @@ impl<'a> Gen<'a> {
         let _ = apply_op(&mut self.mirror, &op);
         self.steps.push(Step::Up(op));
     }
+    /// a planted (valid) update, followed now and then by a redundant or invalid one when allowed
+    fn up_planted(&mut self, op: Op) {
+        self.up(op);
+        if self.invalid && self.rng.chance(2, 5) {
+            let class = if self.rng.chance(1, 2) { 70 } else { 85 };
+            let op = self.update_of_class(class);
+            self.up(op);
+        }
+    }
     /// a query on a LIVE label (never on an unknown one: out of scope)
     fn query_on(&mut self, label: usize) {
         if !self.is_live(label) || self.queries.is_empty() {
@@ -288,6 +297,11 @@ impl<'a> Gen<'a> {
     }
     fn random_update(&mut self) -> Op {
         let class = if self.invalid { self.rng.below(100) } else { 0 };
+        self.update_of_class(class)
+    }
+    /// class < 70: valid, < 85: redundant, else invalid (falls back to a valid update when the
+    /// framework offers no operand of the class)
+    fn update_of_class(&mut self, class: usize) -> Op {
         let k = match self.rng.below(100) { 0..=24 => 0, 25..=39 => 1, 40..=79 => 2, _ => 3 };
         let live = self.live();
         let dead = self.dead();
@@ -335,11 +349,11 @@ impl<'a> Gen<'a> {
     // ---- planted motifs (valid updates only)
     /// makes `l` a fresh live argument without attacks: removed first when live
     fn fresh(&mut self, l: usize) {
-        if self.is_live(l) { self.up(Op::RemArg(l)); }
-        self.up(Op::NewArg(l));
+        if self.is_live(l) { self.up_planted(Op::RemArg(l)); }
+        self.up_planted(Op::NewArg(l));
     }
     fn att(&mut self, a: usize, b: usize) {
-        if !self.has_att(a, b) { self.up(Op::NewAtt(a, b)); }
+        if !self.has_att(a, b) { self.up_planted(Op::NewAtt(a, b)); }
     }
     /// j arguments added and removed again: the ids of everything that follows are sparse
     fn junk_prelude(&mut self, j: usize) {
@@ -524,6 +538,8 @@ pub fn parse_replay(text: &str) -> Vec<(String, (usize, usize), String, Vec<Step
 }
 
 pub fn run(rng: &mut Rng, count: usize, thorough: bool, extra: &[String], out: &mut Out) {
+    // histories have <= 8 live arguments: a case that needs more SAT calls than this is looping
+    SOLVE_BUDGET.store(4000, std::sync::atomic::Ordering::Relaxed);
     let mut invalid = false;
     let mut replay: Option<String> = None;
     let mut only: Option<String> = None;
